@@ -80,7 +80,7 @@ def accepted (cfg : Cfg) (ops : List WriteOp) (t : Nat) : List AU :=
 /-! ## MPEG-TS -/
 
 structure ScanTs where
-  seenRA  : Bool := false        -- the (single) video track has had its first random-access unit
+  seenRA  : List Nat := []       -- video tracks whose first random-access unit has arrived
   started : Bool := false        -- a unit of the leading track has been accepted
   out     : List TsUnit := []
   deriving Repr
@@ -93,8 +93,8 @@ def scanTsOp (cfg : Cfg) (s : ScanTs) (op : WriteOp) : ScanTs :=
   let r := tc.clockRate
   if tc.codec.isVideo then
     if !op.ra && !op.pic then s else
-    if !op.ra && !s.seenRA then s else
-    { s with seenRA := true, started := true,
+    if !op.ra && !s.seenRA.contains k then s else
+    { s with seenRA := k :: s.seenRA, started := true,
              out := s.out ++ [{ track := k, pts := Hls.Gen.multiplyAndDivide op.pts 90000 r,
                                 dts := Hls.Gen.multiplyAndDivide op.dts 90000 r, pays := [op.pays.headD 0] }] }
   else
